@@ -143,7 +143,11 @@ def invoke_cases(draw, forced, rot):
                     cands = _candidates({cons} if cons else set())
                     val = cands[(draw(st.integers(0, len(cands) - 1)) +
                                  rot + bidx) % len(cands)]
-                    args.append(_literal(val, typ, draw(st.booleans())))
+                    kinded = draw(st.booleans())
+                    if cons == "nonneg":
+                        # SIGN(a, X) needs a and X of the same kind
+                        kinded = True
+                    args.append(_literal(val, typ, kinded))
         builtins.append({"name": name, "args": args})
     fields = []
     order = [f[0] for f in REAL_FIELDS + INT_FIELDS]
@@ -212,11 +216,11 @@ def judge(case, cfg, outcome):
         return fails
     if outcome.status == "compile":
         fails.append(("compile", "generated code does not compile: " +
-                      outcome.detail[-600:]))
+                      " ".join(outcome.detail.split())[:500]))
         return fails
     if outcome.status == "runtime":
         fails.append(("runtime", "generated code fails at run time: " +
-                      outcome.detail[-600:]))
+                      " ".join(outcome.detail.split())[:400]))
         return fails
     bad = M.check_bounds(case, dm, annexed, outcome.sub_text)
     if bad:
@@ -398,4 +402,48 @@ def replay(case):
     return None
 
 
-CLASSIFIERS = {}
+# --------------------------------------------------------------------------
+# known-finding classifiers (semantic features of the failing INPUT)
+# --------------------------------------------------------------------------
+def _region_private_field_data(case):
+    """Dynamo0p3OMPLoopTrans + ONE OMPParallelTrans around several built-in
+    loops where a field is written (pure write, not an inc_ form) by one
+    built-in of the region before any built-in of the region reads it and
+    is accessed again in the region: OMPParallelDirective
+    .infer_sharing_attributes() then lists the field's data pointer
+    (<field>_data) in the PRIVATE clause."""
+    inv = case["invoke"]
+    plan = inv.get("trans", {})
+    if plan.get("kind") != "region" or not plan.get("merge"):
+        return False
+    runs = [[]]
+    for call in inv["builtins"]:
+        runs[-1].append(call)
+        if case["dm"] and spec.SPEC[call["name"]].kind == "reduction":
+            runs.append([])        # the global sum ends the parallel region
+    for calls in runs:
+        if len(calls) < 2:
+            continue
+        accesses = {}
+        for call in calls:
+            sp = spec.SPEC[call["name"]]
+            for tok, (_, typ, acc) in zip(call["args"], sp.args):
+                if typ not in ("rf", "if"):
+                    continue
+                if acc == "r":
+                    kind = "R"
+                else:
+                    kind = "RW" if "inc_" in sp.key else "W"
+                accesses.setdefault(tok, []).append(kind)
+        for seq in accesses.values():
+            if len(seq) < 2:
+                continue
+            for kind in seq:
+                if kind == "R":
+                    break
+                if kind == "W":
+                    return True
+    return False
+
+
+CLASSIFIERS = {"omp_region_private_field_data": _region_private_field_data}
